@@ -175,6 +175,9 @@ def core_scenarios():
     # a rolled-back entry above 10 MiB leaves payload bytes (no header) in the units behind its zeroed header: recovery must step over them
     S.append(("rolled_back_big_entry_then_other_topic", "strict", "A:a:10 F:FSYNC:s3 EB:t:15728640 A:b:20 O R:a R:b"))
     S.append(("rolled_back_big_entry_then_more", "strict", "A:a:10 A:t:5 F:FSYNC:s3 EB:t:15728640 A:b:20 A:t:7 O R:a R:b R:t R:t"))
+    # a batch consumer that was exactly caught up on the active block; the producer then rolls over; restart (C06 hydration + tail fold)
+    S.append(("caught_up_tail_then_rollover_restart", "strict", "A:t:100 A:t:200 X:t:1000:1 %s O X:t:3000000:1 X:t:30000000:1 R:t" % big))
+    S.append(("caught_up_tail_then_rollover_restart_rn", "strict", "A:t:100 R:t %s O R:t X:t:30000000:1 R:t" % big))
     S.append(("stateless_alo_cursor", "alo3", "A:t:300 A:t:300 A:t:300 A:t:300 A:t:300 A:t:300 R:t S:t:1048576:1:0 P:t R:t"))
     # clean/dirty markers across immediate and delayed clean restarts (C17)
     S.append(("clean_immediate_reopen", "strict", "A:t:10 OI P:t C:t OI P:t D:t OI P:t"))
